@@ -359,7 +359,7 @@ func init() {
 	fw.Register(&fw.Property{
 		ID:          "C18",
 		Level:       "exploration",
-		Rule:        "valid streams (packfiles of 1..20 objects incl. 1-byte and 100 KiB objects, pkt-line sequences incl. flush packets, encoded commit, table of 0..600 blocks, block, block index, profile, uint list, string list) are decoded from a bytes.Reader and then under every chunker: one byte per read, half reads, data together with the error, last bytes together with io.EOF, (0,nil) reads before data, 10 seeded random chunk sizes, and a cut exactly after each of the first header bytes / inside every object header; the decoded value and terminal condition must equal the whole-buffer decode; distinct_nontrivial = distinct (stream kind, size, byte length)",
+		Rule:        "valid streams (packfiles of 1..20 objects incl. 1-byte and 100 KiB objects, pkt-line sequences incl. flush packets, encoded commit (text fields up to 65535 bytes), pkt-lines up to 3 KB, table of 0..600 blocks with column names up to 800 bytes, block, block index, profile, uint list, string list) are decoded from a bytes.Reader and then under every chunker: one byte per read, half reads, data together with the error, last bytes together with io.EOF, (0,nil) reads before data, 10 seeded random chunk sizes, and a cut exactly after each of the first header bytes / inside every object header; the decoded value and terminal condition must equal the whole-buffer decode; distinct_nontrivial = distinct (stream kind, size, byte length)",
 		Assumptions: []string{"readers that return (0,nil) forever violate io.Reader's contract and are not used", "the HTTP transport variant (one byte per flush through apiclient) runs in the C09 harness"},
 		Gen: func(tier string, seed int64) []fw.Case {
 			l := fw.NewCaseList("C18", tier, seed)
